@@ -9,8 +9,8 @@ import (
 
 // ValSpec describes one genesis validator.
 type ValSpec struct {
-	Key        int      // index into keys.BLS (operator / consensus key)
-	OutputKey  int      // -1: output = operator address (custodial); otherwise index into keys.Ed for the output address
+	Key        int // index into keys.BLS (operator / consensus key)
+	OutputKey  int // -1: output = operator address (custodial); otherwise index into keys.Ed for the output address
 	Stake      uint64
 	Committees []uint64 // default {chainID}
 	Delegate   bool
